@@ -35,7 +35,7 @@ func init() {
 	register(&c13{base{
 		id:          "C13",
 		level:       lvlFaultEnum,
-		rule:        "for seeded small sets (PAR2: 2-3 files, 3-5 blocks; PAR1: 3 files, 3 volumes) and EACH file of the set (index, every recovery/parity volume, every data file) the following fault families are enumerated: truncation at every packet boundary, every header-field boundary, offset 0 and sampled payload offsets; a flip of every bit of every header field (incl. the PAR2 length field outside the packet MD5 and the PAR1 fields before 0x20) and seeded payload bits; garbage overwrite and emptying; deletion of every subset of the set's files; crash points: the actual write sequence of Create is recorded through the file-system seam and every prefix of it is materialised with the last file torn at every packet boundary, at 0 bytes and at sampled inner offsets. After each fault the real Verify and Repair run in a resource-capped child: they must return normally; a Verify result must not claim more usable slices/files than a brute-force finder locates in the bytes on disk, nor more recovery blocks/volumes than the reference reader finds intact, nor 'no repair needed' unless every file is identical; Repair may only create or change protected files and only to their exact original bytes. A key is (format, family, target file, fault coordinate)",
+		rule:        "for seeded small sets (PAR2: 2-3 files, 3-5 blocks; PAR1: 3 files, 3 volumes) and EACH file of the set (index, every recovery/parity volume, every data file) the following fault families are enumerated: truncation at every packet boundary, every header-field boundary, offset 0 and sampled payload offsets; a flip of every bit of every header field (incl. the PAR2 length field outside the packet MD5 and the PAR1 fields before 0x20) and seeded payload bits; garbage overwrite and emptying; deletion of every subset of the set's files; crash points: the actual write sequence of Create is recorded (also: a re-Create over an OLDER archive of the same recovery set ID, interrupted after every prefix, with data damage that forces the stale blocks into use) through the file-system seam and every prefix of it is materialised with the last file torn at every packet boundary, at 0 bytes and at sampled inner offsets. After each fault the real Verify and Repair run in a resource-capped child: they must return normally; a Verify result must not claim more usable slices/files than a brute-force finder locates in the bytes on disk, nor more recovery blocks/volumes than the reference reader finds intact, nor 'no repair needed' unless every file is identical; Repair may only create or change protected files and only to their exact original bytes. A key is (format, family, target file, fault coordinate)",
 		assumptions: append([]string{"faults are single (one file damaged per case) except for the subset and crash-point families"}, commonAssumptions...),
 		opts:        core.WorkerOpts{CrashIsViolation: true, ASLimitMiB: 4096, WallSeconds: 2400},
 	}})
@@ -55,6 +55,7 @@ func (c *c13) Cases(tier string, seed int64) []core.Case {
 				}
 			}
 			cs = append(cs, core.MkCase(fmt.Sprintf("%s-set%d-bigfile", f, s), c13Params{sd, f, "bigfile", -1, tier == "thorough"}))
+			cs = append(cs, core.MkCase(fmt.Sprintf("%s-set%d-crash-points-over-older-archive", f, s), c13Params{sd, f, "crash-stale", -1, tier == "thorough"}))
 			cs = append(cs, core.MkCase(fmt.Sprintf("%s-set%d-subsets", f, s), c13Params{sd, f, "subsets", -1, tier == "thorough"}))
 			cs = append(cs, core.MkCase(fmt.Sprintf("%s-set%d-crash-points", f, s), c13Params{sd, f, "crash-points", -1, tier == "thorough"}))
 		}
@@ -257,6 +258,10 @@ func (h *hostileEnv) truth() hostileTruth {
 	return t
 }
 
+func (h *hostileEnv) judgeStale(r *core.R, k, n int, seq []string, ndamage int, rel0 string) {
+	h.judge(r, fmt.Sprintf("re-Create over an older archive interrupted after %d of %d writes (%v new; older: %v); %d damaged regions beyond 16 KiB in %s", k, n, seq[:k], seq[k:], ndamage, rel0))
+}
+
 // judge runs Verify and Repair on the current directory state.
 func (h *hostileEnv) judge(r *core.R, what string) {
 	h.sub++
@@ -443,7 +448,7 @@ func (c *c13) Run(cs core.Case) core.Result {
 	var p c13Params
 	core.Decode(cs, &p)
 	r := core.NewR(cs)
-	hostileBigFile = p.Family == "bigfile"
+	hostileBigFile = p.Family == "bigfile" || p.Family == "crash-stale"
 	h, err := newHostileEnv(p.Fmt, p.Seed)
 	hostileBigFile = false
 	if h != nil {
@@ -611,6 +616,83 @@ func (c *c13) Run(cs core.Case) core.Result {
 			r.Key("%s|bigfile-append|%d|%d", p.Fmt, len(extra), extra[0])
 		}
 		r.Sample(map[string]interface{}{"format": p.Fmt, "family": "bigfile", "target": rel, "target_bytes": len(orig)})
+	case "crash-stale":
+		// The user edited a protected file (beyond its first 16 KiB, same
+		// length) and re-ran Create over the older archive; that Create was
+		// interrupted, so newer and older recovery files of the SAME recovery
+		// set ID sit side by side. Then data gets damaged.
+		rel0 := filepath.FromSlash(h.set.Files[0].Name)
+		oldDir, err := os.MkdirTemp("", "c13-old-")
+		if err != nil {
+			r.Inconclusive("tempdir: %v", err)
+			return r.Done()
+		}
+		defer os.RemoveAll(oldDir)
+		oldSet := h.set
+		oldSet.Files = append([]scen.File(nil), h.set.Files...)
+		oldData := append([]byte(nil), h.set.Files[0].Data...)
+		for k := 0; k < 40; k++ {
+			oldData[16384+rng.Intn(len(oldData)-16384)] ^= byte(1 + rng.Intn(255))
+		}
+		oldSet.Files[0] = scen.File{Name: h.set.Files[0].Name, Data: oldData}
+		oldPaths, _ := oldSet.Materialize(filepath.Join(oldDir, "set"))
+		oldIdx := filepath.Join(oldDir, "set", filepath.Base(h.idx))
+		var cerr error
+		if p.Fmt == "par2" {
+			cerr = par2.Create(oldIdx, oldPaths, par2.CreateOptions{SliceByteCount: h.set.SliceSize, NumParityShards: h.set.Blocks, NumGoroutines: 2})
+		} else {
+			cerr = par1.Create(oldIdx, oldPaths, par1.CreateOptions{NumParityFiles: 3})
+		}
+		if cerr != nil {
+			r.Violate("create-failed", "older generation: %v", cerr)
+			return r.Done()
+		}
+		var seqNames []string
+		for _, w := range h.createSeq {
+			rel, _ := filepath.Rel(h.dir, w.Path)
+			seqNames = append(seqNames, rel)
+		}
+		orig0 := h.data[rel0]
+		for k := 0; k <= len(seqNames); k++ {
+			for _, ndamage := range []int{1, 2, 3} {
+				h.restore()
+				// files not yet rewritten still hold the older generation
+				for j := k; j < len(seqNames); j++ {
+					if b, err := os.ReadFile(filepath.Join(oldDir, "set", seqNames[j])); err == nil {
+						write(seqNames[j], b)
+					}
+				}
+				// damage ndamage slices of the edited file, all beyond 16 KiB
+				b := append([]byte(nil), orig0...)
+				s := h.set.SliceSize
+				first := 16384/s + 1
+				for d := 0; d < ndamage; d++ {
+					off := (first + d) * s
+					if p.Fmt == "par1" {
+						off = 16384 + 100*d
+					}
+					if off+1 < len(b) {
+						b[off+1] ^= 0x5a
+					}
+				}
+				write(rel0, b)
+				// Which content is "protected" is decided by the index file that
+				// is on disk: before the first write it is still the older one.
+				if k == 0 {
+					h.data[rel0] = oldData
+					h.set.Files[0].Data = oldData
+				}
+				func() {
+					defer func() {
+						h.data[rel0] = orig0
+						h.set.Files[0].Data = orig0
+					}()
+					h.judgeStale(r, k, len(seqNames), seqNames, ndamage, rel0)
+				}()
+				r.Key("%s|crash-stale|%d|%d", p.Fmt, k, ndamage)
+			}
+		}
+		r.Sample(map[string]interface{}{"format": p.Fmt, "family": "crash-stale", "write_sequence": seqNames, "edited_file_bytes": len(orig0)})
 	case "subsets":
 		n := len(h.names)
 		if n > 10 {
